@@ -261,9 +261,14 @@ struct BfSk: Sk {
   BfSk(std::unique_ptr<sim::ExactBuf>&& m, S&& s_): mem(std::move(m)), s(new S(std::move(s_))) {}
   ~BfSk() override { s.reset(); mem.reset(); }
   const char* fam() const override { return "bloom"; }
-  Sk* clone() const override { return new BfSk(S(*s)); }        // a copy of a wrapped filter owns its memory
+  Sk* clone() const override {   // the library's copy of a wrapping filter is another view of the same caller memory: give the clone its own memory block
+    if (!mem) return new BfSk(S(*s));
+    std::unique_ptr<sim::ExactBuf> m(new sim::ExactBuf(mem->p, mem->n));
+    if (s->is_read_only()) { S f(S::wrap(m->p, m->n, A(ARENA))); return new BfSk(std::move(m), std::move(f)); }
+    S f(S::writable_wrap(m->p, m->n, A(ARENA))); return new BfSk(std::move(m), std::move(f));
+  }
   Sk* move_out() override { std::unique_ptr<BfSk> n(new BfSk(S(std::move(*s)))); n->mem = std::move(mem); return n.release(); }
-  void copy_assign(const Sk& o) override { *s = *static_cast<const BfSk&>(o).s; if (&o != this) mem.reset(); }
+  void copy_assign(const Sk& o) override { if (&o == this) { *s = *s; return; } std::unique_ptr<BfSk> c(static_cast<BfSk*>(o.clone())); s = std::move(c->s); mem = std::move(c->mem); }
   void move_assign(Sk& o) override { BfSk& b = static_cast<BfSk&>(o); if (&o == this) { *s = std::move(*b.s); return; } *s = std::move(*b.s); mem = std::move(b.mem); }
   void feed(i64 start, i64 count, i64 pattern) override {
     if (s->is_read_only()) return;
